@@ -2,6 +2,7 @@ import JxlModel.Driver.C13
 import JxlModel.Driver.Enc
 import JxlModel.Driver.C10
 import JxlModel.Driver.C02
+import JxlModel.Driver.C19
 
 def main (args : List String) : IO UInt32 := do
   match args with
@@ -10,4 +11,5 @@ def main (args : List String) : IO UInt32 := do
   | ["c10"] => Jxl.Driver.C10.main; return 0
   | ["c02"] => Jxl.Driver.C02.main .checked; return 0
   | ["c02", "wrapping"] => Jxl.Driver.C02.main .wrapping; return 0
+  | ["c19"] => Jxl.Driver.C19.main; return 0
   | _ => IO.eprintln "usage: jxlmodel <component>"; return 2
